@@ -278,6 +278,44 @@ func init() {
 			return false
 		},
 
+		"sort.Slice": func(fr *frame, fn *ssa.Function, a []value) value {
+			xs, ok := a[0].(iface).v.([]value)
+			if !ok {
+				fr.in.unsupported("sort.Slice of %T", a[0].(iface).v)
+			}
+			less := func(i, j int) bool {
+				r := fr.in.call(fr, 0, a[1], []value{i, j})
+				if b, ok := r.(bool); ok {
+					return b
+				}
+				return fr.in.decide(r.(*Sym).T)
+			}
+			// insertion sort through less(i,j) on the live slice (stable, like sort.SliceStable; sort.Slice promises less)
+			for i := 1; i < len(xs); i++ {
+				for j := i; j > 0 && less(j, j-1); j-- {
+					xs[j], xs[j-1] = xs[j-1], xs[j]
+				}
+			}
+			return nil
+		},
+		"sort.Strings": func(fr *frame, fn *ssa.Function, a []value) value {
+			xs := a[0].([]value)
+			for i := 1; i < len(xs); i++ {
+				for j := i; j > 0; j-- {
+					x, ok1 := xs[j].(string)
+					y, ok2 := xs[j-1].(string)
+					if !ok1 || !ok2 {
+						fr.in.unsupported("sort.Strings of symbolic strings")
+					}
+					if !(x < y) {
+						break
+					}
+					xs[j], xs[j-1] = xs[j-1], xs[j]
+				}
+			}
+			return nil
+		},
+
 		// deep copy / equality
 		"google.golang.org/protobuf/proto.Clone": func(fr *frame, fn *ssa.Function, a []value) value {
 			return deepCopy(a[0], map[*value]*value{}, map[*smap]*smap{})
